@@ -40,6 +40,8 @@ type Transport struct {
 	// gates inside the hub broadcast (payload preparation) and before a push is encoded.
 	OnUnidirectional    func()
 	OnDisabledPushFlags func()
+	// DisabledFlags is what DisabledPushFlags reports (set before the transport is used).
+	DisabledFlags uint64
 }
 
 func NewTransport(proto centrifuge.ProtocolType) *Transport {
@@ -66,7 +68,7 @@ func (t *Transport) DisabledPushFlags() uint64 {
 	if f := t.OnDisabledPushFlags; f != nil {
 		f()
 	}
-	return 0
+	return t.DisabledFlags
 }
 func (t *Transport) PingPongConfig() centrifuge.PingPongConfig {
 	if t.ping.PingInterval == 0 {
